@@ -19,7 +19,7 @@ def cases(ctx):
         for ty, ln in (('p2pkh', 20), ('p2sh', 20), ('p2wpkh', 20), ('p2wsh', 32), ('p2tr', 32)):
             h = G.rbytes(rng, ln); net = rng.choice(NETS)
             ctx.count('spk-' + ty)
-            yield Case(f'spk {ty} {hx(h)} {net}', 'ms', nontrivial=net != 'testnet', tag='spk',
+            yield Case(f'spk {ty} {hx(h)} {net}', 'gms', nontrivial=net != 'testnet', tag='spk',
                        spec=lambda ans, ty=ty, h=h: (f's:spk {ty} {hx(h)}', ans))
     from harness import rmdleaf
     yield from rmdleaf.cases(ctx)
@@ -58,7 +58,7 @@ def cases(ctx):
                    ['OP_1', h32], ['OP_SHA256', h32, 'OP_EQUAL'], ['OP_HASH256', h32, 'OP_EQUAL'], ['OP_RIPEMD160', h20, 'OP_EQUAL'], [h20], [h32], []]
     for toks in shaped:
         ctx.count('commit-template-shaped')
-        yield Case(f'script_commit {toks_str(toks)}', 'ms', nontrivial=True, tag='commit-shaped')
+        yield Case(f'script_commit {toks_str(toks)}', 'gms', nontrivial=True, tag='commit-shaped')
     # the same Script object after its helpers were used and its token list was then changed in place
     for _ in range(ctx.n(40, 1500)):
         toks = G.script_tokens(rng, names, 6, big=False) or ['OP_1']
@@ -72,7 +72,7 @@ def cases(ctx):
         if not toks: toks = ['OP_1']
         nt = len(toks) >= 2 or any(isinstance(t, str) and not t.startswith('OP_') and len(t) > 150 for t in toks)
         ctx.count('commit')
-        yield Case(f'script_commit {toks_str(toks)}', 'ms', nontrivial=nt, tag='commit')
+        yield Case(f'script_commit {toks_str(toks)}', 'gms' if len(toks_str(toks)) < 2000 else 'ms', nontrivial=nt, tag='commit')
 
 
 def impl(op, a, ctx):
